@@ -34,6 +34,12 @@ func (r *Rng) Intn(n int) int {
 func (r *Rng) Bool() bool       { return r.U64()&1 == 1 }
 func (r *Rng) Chance(p int) bool { return r.Intn(100) < p }
 func (r *Rng) Pick(xs []int) int { return xs[r.Intn(len(xs))] }
+func (r *Rng) Pick2(a, b string) string {
+	if r.Bool() {
+		return a
+	}
+	return b
+}
 func (r *Rng) Bytes(n int) []byte {
 	b := make([]byte, n)
 	for i := range b {
